@@ -121,6 +121,20 @@ Section C18.
     In x (index (run ops s)) -> In x (index s) \/ exists v dt, In (AddVariable x v dt) ops.
   Proof. exact (run_index pycast arrcast infer astype_dt itemseq_exn ops s x). Qed.
 
+  (* ---------------------------------------------------------------- strict=True *)
+  Theorem C18_alias_update_keeps_working am a value hint s :
+    mem (resolve am a) (index s) = true ->
+    alias_step am (SetAttr a value hint) s = setattr_var pycast arrcast (resolve am a) value s /\
+    alias_step am (SetItem (KName a) value) s = setattr_var pycast arrcast (resolve am a) value s.
+  Proof. exact (alias_update_keeps_working pycast arrcast infer astype_dt itemseq_exn am a value hint s). Qed.
+
+  Theorem C18_alias_strict_blocks_new_attributes am a value hint s :
+    strict s = true -> resolve am a <> "strict" ->
+    mem (resolve am a) (index s) = false -> reg_mem (resolve am a) (registry s) = false ->
+    alias_step am (SetAttr a value hint) s =
+      (s, Raise (match alternatives hint (row_names s) with _ :: _ :: _ => NotImplementedError | _ => AttributeError end)).
+  Proof. exact (alias_strict_blocks_new_attributes pycast arrcast infer astype_dt itemseq_exn am a value hint s). Qed.
+
   (* ---------------------------------------------------------------- reads *)
   Theorem C18_alias_read_eq_root_read am k s :
     WFam am -> alias_getitem am k s = alias_getitem am (resolve_key am k) s.
@@ -282,6 +296,8 @@ Print Assumptions C18_alias_run_inv.
 Print Assumptions C18_alias_run_one_cell_per_period.
 Print Assumptions C18_alias_no_extra_storage.
 Print Assumptions C18_run_index.
+Print Assumptions C18_alias_update_keeps_working.
+Print Assumptions C18_alias_strict_blocks_new_attributes.
 Print Assumptions C18_alias_read_eq_root_read.
 Print Assumptions C18_alias_getattr_eq_root.
 Print Assumptions C18_resolve_kwargs_spec.
